@@ -176,6 +176,7 @@ class Subjects(object):
                 elif len(vs_ok) == len(vs_all) and vs_all and not self._ts_quirk_possible(nonarg):
                     self.fails.append((name + ":routed-get-missing", "get(%s) returned None although every stored version satisfies the attached/passed-down filters %s" % (
                         sid, core.short(nonarg, 300))))
+        self.last_result = [[k[0], k[1]] for k in M_keys(exp)]
         return sizes
 
     @staticmethod
@@ -183,16 +184,21 @@ class Subjects(object):
         return any(G.PATHS.get(f["prop"]) in ("ts", "ts2") for f in filters)
 
 
+def M_keys(objs):
+    return sorted(M.key_of(o) for o in objs)
+
+
 def check_case(case, per_query=None):
     fails = []
     with S.lib_session(), S.scratch_dir() as tmp:
+        S.require_accepted(case["pop"])
         sub = Subjects(case, tmp, fails)
         if sub.ok:
             for q in case["queries"]:
                 n0 = len(fails)
                 sizes = sub.run_query(q)
                 if per_query is not None:
-                    per_query(q, sizes, fails[n0:])
+                    per_query(q, sizes, getattr(sub, "last_result", None) if sizes is not None else None)
     seen, out = set(), []
     for k, d in fails:
         if k not in seen:
@@ -283,11 +289,11 @@ def run(ctx):
     def body(case):
         notes = []
 
-        def per_query(q, sizes, qfails):
+        def per_query(q, sizes, result):
             cl = query_classes(case["pop"], q)
             if sizes is not None:
                 cl.add("result:empty" if sizes[0] == 0 else "result:everything" if sizes[0] == len(case["pop"]) else "result:proper-subset")
-            shape = (G.filter_shape(q["filters"]), sorted(f["route"] for f in q["filters"]), sizes)
+            shape = (G.filter_shape(q["filters"]), result)   # distinct = (filter-set shape, expected result)
             notes.append(({"bundlify": case.get("bundlify"), "pop": case["pop"], "queries": [q]}, _nontrivial(case["pop"], q, sizes), sorted(cl),
                           core.fingerprint(shape)))
         fails = check_case(case, per_query)
